@@ -29,12 +29,12 @@ claim("C05",
       "Bounded model checking of the encoder's emission kernels against RFC 1951/1950: the bit writer packs every sequence of up to 4 emissions from every valid register state exactly as RFC 1951 3.1.1 prescribes; every literal, every (length, distance) pair and every block header is emitted with the RFC fixed code / extra bits (all 256 x 32768 pairs, decided symbolically); static tables equal the RFC tables; dynamic trees at reduced alphabets: gen_codes assigns a canonical prefix-free code to every complete length set (5 symbols <= 4 bits; 8 symbols <= 7 bits), build_tree on the bit-length alphabet yields a complete code within the length limit whose lengths follow the frequencies and whose cost equals opt_len (2..=4 used symbols, any frequencies; the forced second code), send_tree's run-length coding of the lengths is read back by an RFC 1951 3.2.7 reference decoder and scan_tree predicts exactly the symbols sent (4, 5, 7 symbolic lengths; an 11-zero run); zlib header/trailer; stored blocks (level 0) parsed back by a reference parser. The solver ranges over all values inside each harness's bounds, which sampling cannot.",
       'Outside the claim: that match finders (longest_match, medium/slow) never propose a distance beyond max_dist; full-size dynamic trees and the length-limit overflow repair of gen_bitlen (not reachable at the reduced sizes); compress_block over a whole symbol buffer; whole-stream composition beyond the kernels listed in the evidence.')
 claim("C01",
-      "Compositional, bounded: (a) level 0 end to end: one deflate_stored call on a typed state, every input of 0..=6 bytes, every output space and flush mode, decoded by a stored-block reference parser back to the input; (b) level 1 end to end: deflate() with deflate_quick on every input of concrete length 1 and 3 (thorough: 5), decoded by a fixed-Huffman reference decoder back to the input; (c) every static symbol the encoder can emit is the RFC code (KD1/KD2) and every fixed-table entry the decoder uses is the RFC code (KI5d), so encoder and decoder agree symbol by symbol; (d) the real decoder decodes stored blocks and fixed symbols exactly (KI5c/KI5d); (e) reset leaves no state behind (KD10); (f) dynamic-tree kernels at reduced alphabets (KD4/KD5, see C05); (g) the window slide: positions move with the data, the deferred lazy match still denotes equal bytes or is dropped (inductive step over deflate_slow's loop-head invariant, 1 KiB symbolic window), hash chains slide to the same positions or NIL.",
+      "Compositional, bounded: (a) level 0 end to end: one deflate_stored call on a typed state, every input of 0..=6 bytes, every output space and flush mode, decoded by a stored-block reference parser back to the input; (b) level 1 end to end: deflate() with deflate_quick on every input of concrete length 1 and 3, decoded by a fixed-Huffman reference decoder back to the input; (c) every static symbol the encoder can emit is the RFC code (KD1/KD2) and every fixed-table entry the decoder uses is the RFC code (KI5d), so encoder and decoder agree symbol by symbol; (d) the real decoder decodes stored blocks and fixed symbols exactly (KI5c/KI5d); (e) reset leaves no state behind (KD10); (f) dynamic-tree kernels at reduced alphabets (KD4/KD5, see C05); (g) the window slide: positions move with the data, the deferred lazy match still denotes equal bytes or is dropped (inductive step over deflate_slow's loop-head invariant, 1 KiB symbolic window), hash chains slide to the same positions or NIL.",
       'Outside the claim: the match finders and the fast/medium/slow strategies themselves (only the slide they rely on), full-size dynamic trees, inputs long enough to need more than one slide, multi-call schedules beyond the bounds, deflateParams mid-stream, windowBits/memLevel sweeps. A change confined to fast/medium/slow/longest_match is not detectable by this check (seed C10c is such a change).')
 claim("C02",
       "Bounded model checking of every decoder kernel with CBMC's pointer, bounds, overflow, unwrap and assertion checks plus canaries "
       "around every caller buffer, unwinding assertions as the termination argument: bit reader (any split, refill precondition), writer "
-      "copy primitives at chunk widths 8 and 32, window ring, every gzip/zlib header mode with capture buffers of every announced capacity "
+      "copy primitives (copy_match at chunk width 8 against 32 for small buffers, extend_from_window at widths 8 and 32), window ring, every gzip/zlib header mode with capture buffers of every announced capacity "
       "(incl. 0 and NULL), block layer (TypeDo, Stored/CopyBlock, Table, LenLens), symbol decoding on the fixed tables through both copies "
       "of the code, Match step with every (length, offset, window state), trailer modes, inflate() prologue/epilogue, inflateBack's "
       "distance handling. One step from an arbitrary valid state covers histories of any length for that step.",
@@ -51,7 +51,7 @@ claim("C06",
       "Bounded: deflate()'s status machine with the compress function replaced by a contract stub: every level x strategy x flush, documented statuses only, duplicate-flush rule, a call refused for lack of output space changes nothing and its retry goes through, a flush starved inside the compress function is completed by the next call whatever flush preceded it, Finish under starved output (1..=3 bytes per call) reaches StreamEnd in at most 11 calls and every call makes progress; the real level-0 and level-1 paths never trip an assertion (Pending::extend capacity, fill_window asserts) for every input within bounds; deflatePrime for every i32 bits/value; params/tune/set_header/pending for every integer argument; reset from an arbitrary state; allocation-failure path of deflateCopy.",
       'Outside: Pending::extend capacity inside block emission for levels >= 2 (depends on lit_bufsize accounting over whole blocks); multi-call histories beyond the bounds listed per harness.')
 claim("C07",
-      "Bounded and narrow: for level 0 (every input of 0..=6 bytes at w_size 16) and level 1 (every input of length 1 and 3; thorough: 5) a "
+      "Bounded and narrow: for level 0 (every input of 0..=6 bytes at w_size 16) and level 1 (every input of length 1 and 3) a "
       "single Finish call into a buffer of deflateBound size ends with StreamEnd and produced <= bound, with both sides being the real code; "
       "Engine B decides the arithmetic of compress_bound_help / deflate_quick_overhead (no wrap-around below 2^32, monotone, >= source_len "
       "+ wrapper + block overhead).",
